@@ -71,6 +71,12 @@ def check_sum(run, cx, cfg):
                 if len(enters) < 3:
                     bad = 'expected silence loop, output loop, input loop'
                 kinds.add('add')
+        if not bad and p['end'] == 'return':
+            # must pass through: whatever the inputs, a call returns only after the silencing loop and the channel loop over
+            # the outputs have both run to their end (with no input the sum is silence, not the previous block)
+            dens = [d.iter_of(l['iter']) for l in iterator_loops(p) if l['frame'] == 0]
+            if ('seq', OUT) not in dens or ('enumerate', ('seq', OUT)) not in dens or dens.index(('seq', OUT)) > dens.index(('enumerate', ('seq', OUT))):
+                bad = 'returns without having run the silencing loop and then the channel loop over all outputs: [%s]' % describe_path(p)[:300]
         if bad:
             break
         # a missing channel in an input is skipped (no add on the None branch)
@@ -98,8 +104,15 @@ def check_sum_buffers(run, cx, cfg):
         d = Den(p)
         calls = key_calls(p, d, (CFS, ADD))
         if not calls:
-            # no output buffers: return untouched
+            # no output buffers: return untouched -- the only reason not to silence the first output buffer is that
+            # there is none (the first pull from the output iterator gave None)
             if p['end'] == 'return':
+                cf = dict(cond_facts(p))
+                none_first = [k for k, e in call_events(p) if e['name'] == 'next' and e.get('trait') == ITER
+                              and option_variant(cf, ('ret', k)) == 0 and d.next_elem(k) == ('nth', OUT, 0)]
+                if not none_first:
+                    bad = 'returns without silencing the first output buffer although there may be one (with no input the sum is silence, not the previous block): [%s]' % describe_path(p)[:300]
+                    break
                 kinds.add('empty')
             continue
         k0, n0, a0 = calls[0]
@@ -139,8 +152,9 @@ def check_pass(run, cx, cfg):
     for p in ps:
         d = Den(p)
         calls = key_calls(p, d, (CFS, ADD))
-        gets = [(k, e) for k, e in call_events(p) if rp(e) == 'core::slice::<impl [T]>::get']
-        if not gets or d.slice_of(gets[0][1]['args'][0]) != INS or gets[0][1]['args'][1] != ('int', 0, 'usize'):
+        # inputs.get(0), or its other spelling inputs.first()
+        gets = [(k, e) for k, e in call_events(p) if rp(e) in ('core::slice::<impl [T]>::get', 'core::slice::<impl [T]>::first')]
+        if not gets or d.slice_of(gets[0][1]['args'][0]) != INS or (rp(gets[0][1]).endswith('::get') and gets[0][1]['args'][1] != ('int', 0, 'usize')):
             bad = 'must look at inputs.get(0)'
             break
         none = dict(cond_facts(p)).get(('discr', ('ret', gets[0][0]))) == ('int', 0, 'isize')
@@ -173,8 +187,9 @@ def check_delay(run, cx, cfg):
     in0 = ('buffers', ('get', INS, ('int', 0, 'usize')))
     for p in ps:
         d = Den(p)
-        gets = [(k, e) for k, e in call_events(p) if rp(e) == 'core::slice::<impl [T]>::get']
-        if not gets or d.slice_of(gets[0][1]['args'][0]) != INS or gets[0][1]['args'][1] != ('int', 0, 'usize'):
+        # inputs.get(0), or its other spelling inputs.first()
+        gets = [(k, e) for k, e in call_events(p) if rp(e) in ('core::slice::<impl [T]>::get', 'core::slice::<impl [T]>::first')]
+        if not gets or d.slice_of(gets[0][1]['args'][0]) != INS or (rp(gets[0][1]).endswith('::get') and gets[0][1]['args'][1] != ('int', 0, 'usize')):
             bad = 'must look at inputs.get(0)'
             break
         pushes = [(k, e) for k, e in call_events(p) if rp(e) == PUSH]
@@ -221,6 +236,9 @@ def check_signal_node(run, cx, cfg):
         loops = range_loops(p)
         nexts = [(k, e) for k, e in call_events(p) if e['name'] == 'next' and e.get('trait') == 'dasp_signal::Signal']
         if not loops:
+            if p['end'] == 'return':
+                bad = 'returns without rendering the block (the frame loop over 0..Buffer::LEN was never entered): [%s]' % describe_path(p)[:300]
+                break
             continue
         outer = loops[0]
         if outer['lo'] != ('int', 0, 'usize') or not (outer['hi'][0] in ('int', 'assoc', 'constval') ):
@@ -233,7 +251,7 @@ def check_signal_node(run, cx, cfg):
             inner = loops[1]
             hi = inner['hi']
             # channels = min(F::CHANNELS, output.len())
-            ok = hi[0] == 'ret' and rp(p['events'][hi[1]]) == 'core::cmp::min'
+            ok = hi[0] == 'ret' and (rp(p['events'][hi[1]]) == 'core::cmp::min' or (p['events'][hi[1]]['name'] == 'min' and p['events'][hi[1]].get('trait') == 'core::cmp::Ord'))
             if ok:
                 a = p['events'][hi[1]]['args']
                 ok = any(x[0] == 'assoc' and x[2] == 'CHANNELS' for x in a) and any(x[0] == 'ret' and rp(p['events'][x[1]]) == 'core::slice::<impl [T]>::len' and d.slice_of(p['events'][x[1]]['args'][0]) == OUT for x in a)
@@ -324,6 +342,13 @@ def check_graph_node(run, cx, cfg):
                 kinds.add('copy-out')
         if procs:
             kinds.add('process')
+        if not bad and p['end'] == 'return':
+            # must pass through: the input loop, the inner processor, the output loop -- in this order, on every return
+            loops = [(l['enter'], d.iter_of(l['iter'])) for l in iterator_loops(p) if l['frame'] == 0]
+            ins_loops = [k for k, den in loops if den[0] == 'zip' and den[1] == ('seq', INS)]
+            out_loops = [k for k, den in loops if den[0] == 'zip' and den[1] == ('seq', OUT)]
+            if not procs or not ins_loops or not out_loops or not (ins_loops[0] < [k for k, e in enumerate(p['events']) if e is procs[0][1]][0] < out_loops[0]):
+                bad = 'returns without having copied the inputs in, processed the inner graph and copied the outputs out, in this order: [%s]' % describe_path(p)[:300]
         if bad:
             break
     if not bad and not {'copy-in', 'process', 'copy-out'} <= kinds:
